@@ -15,6 +15,7 @@ type Lexer struct {
 	hadNewline    bool // newline was seen before current token
 	lastNewLine   int  // position just after most recent newline
 	lineNumber    int
+	openString    bool // line mode: the input ended inside a string
 }
 
 // Mode with input expected the be complete (multiline/file).
@@ -37,6 +38,11 @@ func (l *Lexer) EOLEOF() *token.Token {
 		return token.EOLT
 	}
 	return token.EOFT
+}
+
+// OpenString tells whether the (line mode) input ended inside a string: more input is needed.
+func (l *Lexer) OpenString() bool {
+	return l.openString
 }
 
 func (l *Lexer) Pos() int {
@@ -113,7 +119,12 @@ func (l *Lexer) NextToken() *token.Token {
 	case '"', '`':
 		str, ok := l.readString(ch)
 		if !ok {
-			return l.EOLEOF()
+			if l.lineMode {
+				l.openString = true
+				return token.EOLT // more input can come.
+			}
+			// unterminated string: not the end of the program, an error.
+			return token.Intern(token.ILLEGAL, string(ch))
 		}
 		return token.Intern(token.STRING, str)
 	case 0:
